@@ -2,7 +2,8 @@
 # usage: tools/seed_sweep.sh [tier] [name-filter]  -- run every seeded/<name>/patch.diff against the check of the property it breaks (from meta.json); prints one line per seed
 tier="${1:-quick}"; filt="${2:-}"
 cd /verif
-for d in seeded/*${filt}*/; do
+if [ -n "$filt" ] && [ -d "seeded/$filt" ]; then dirs="seeded/$filt/"; else dirs=$(ls -d seeded/*${filt}*/); fi
+for d in $dirs; do
   n=$(basename $d)
   pid=$(/venv/bin/python -c "import json,sys;print(json.load(open('$d/meta.json'))['property'])")
   extra=$(/venv/bin/python -c "import json,sys;print(' '.join(json.load(open('$d/meta.json')).get('also_checked_by',[])))")
